@@ -138,6 +138,9 @@ func (c12) Case(c *core.Ctx) {
 		specs = append(specs[:pos], append([]string{malformed}, specs[pos:]...)...)
 		c.Count("malformed")
 	}
+	if ambientDecoderOptions(c, 6) {
+		defer ResetDefaults()
+	}
 	if r.Intn(4) == 0 {
 		// ambient option that NewMap does not document as affecting it
 		mxj.SetFieldSeparator([]string{"|", ";", "."}[r.Intn(3)])
